@@ -372,6 +372,11 @@ func runC04(c *config) {
 	for _, f := range append(files, more...) {
 		b, _ := os.ReadFile(f)
 		c04Check(c, string(b), "corpus", false)
+		// the same module with every specialised metadata definition also written in place, as an operand of a
+		// new tuple: an inline node has no ID and is listed nowhere, whatever its kind
+		if v := inlineVariant(string(b)); v != "" {
+			c04Check(c, v, "inline_metadata_variant", false)
+		}
 	}
 	// references by number: module shapes with named and unnamed globals, aliases, ifuncs and functions,
 	// definitions of other namespaces (attribute groups, metadata, types, comdats) in between, and a use @N
@@ -664,6 +669,14 @@ func runC05(c *config) {
 		{"@g = external global %nope\n", "", "Err"},
 		{"define void @f() {\n\t%x = add i32 %y, 1\n\tret void\n}\n", "", "Err"},
 		{"define void @f() {\n\tret void\n}\nuselistorder_bb @f, %nope, { 1, 0 }\n", "", "Err"},
+		// a block whose NAME is a number, at the position where the unnamed block of that number would sit: the number
+		// itself stays undefined (branch target, phi predecessor, blockaddress), the quoted name is defined
+		{"define void @f() {\nentry:\n\tbr label %0\n\"0\":\n\tret void\n}\n", "", "Err"},
+		{"define void @f() {\nentry:\n\tbr label %\"0\"\n\"0\":\n\tret void\n}\n", "", "Ok"},
+		{"define void @f(i32) {\n\tbr label %2\n\"2\":\n\tret void\n}\n", "", "Err"},
+		{"define i32 @f(i1 %c) {\nentry:\n\tbr i1 %c, label %\"0\", label %x\n\"0\":\n\tbr label %x\nx:\n\t%p = phi i32 [ 1, %0 ], [ 2, %entry ]\n\tret i32 %p\n}\n", "", "Err"},
+		{"@g = global i8* blockaddress(@f, %0)\ndefine void @f() {\nentry:\n\tbr label %\"0\"\n\"0\":\n\tret void\n}\n", "", "Err"},
+		{"@g = global i8* blockaddress(@f, %\"0\")\ndefine void @f() {\nentry:\n\tbr label %\"0\"\n\"0\":\n\tret void\n}\n", "", "Ok"},
 		// the local %0 defined twice; the number 0 on a later value; a numbered parameter of a declaration (KF-42, repaired)
 		{"define i32 @f(i32 %x) {\nentry:\n\t%0 = add i32 %x, 1\n\t%0 = add i32 %x, 2\n\tret i32 %0\n}\n", "", "Err"},
 		{"define i32 @f(i32 %x) {\n\t%0 = add i32 %x, 1\n\tret i32 %0\n}\n", "", "Err"},
@@ -802,6 +815,31 @@ func runC12(c *config) {
 				}
 			}
 			fmt.Fprintf(&sb, "define void @fn() addrspace(5) {\n\tret void\n}\n@fp = global void () addrspace(5)* @fn\n@fq = global i8 addrspace(5)* bitcast (void () addrspace(5)* @fn to i8 addrspace(5)*)\n")
+			inputs = append(inputs, sb.String())
+		}
+	}
+	// invalid texts whose fault sits in one top-level entity and refers into another (a blockaddress of a block
+	// that the named function does not have, from a global, an alias target expression, another function): whether
+	// the text is rejected must not depend on which of the two is translated first
+	{
+		rx := newRng(c.seed, "c12-cross-faults")
+		for i := 0; i < 8*c.scale; i++ {
+			var sb strings.Builder
+			nf := 2 + rx.intn(4)
+			for f := 0; f < nf; f++ {
+				fmt.Fprintf(&sb, "define void @f%d() {\nentry:\n\tbr label %%next\nnext:\n\tret void\n}\n", f)
+			}
+			for g := 0; g < 2+rx.intn(6); g++ {
+				fmt.Fprintf(&sb, "@ok%d = global i8* blockaddress(@f%d, %%next)\n", g, rx.intn(nf))
+			}
+			switch i % 3 {
+			case 0:
+				fmt.Fprintf(&sb, "@bad = global [2 x i8*] [i8* blockaddress(@f%d, %%next), i8* blockaddress(@f%d, %%nope)]\n", rx.intn(nf), rx.intn(nf))
+			case 1:
+				fmt.Fprintf(&sb, "define i8* @user() {\n\tret i8* blockaddress(@f%d, %%nope)\n}\n", rx.intn(nf))
+			default:
+				fmt.Fprintf(&sb, "@bad = global i8* getelementptr (i8, i8* blockaddress(@f%d, %%nope), i32 1)\n", rx.intn(nf))
+			}
 			inputs = append(inputs, sb.String())
 		}
 	}
@@ -960,4 +998,32 @@ func entryDigest(m *ir.Module, err error) string {
 		}
 	}
 	return fmt.Sprintf("%x", sha256.Sum256([]byte(strings.TrimLeft(strings.Join(keep, "\n"), "\n"))))[:16]
+}
+
+var reSpecDef = regexp.MustCompile(`(?m)^!([0-9]+) = (?:distinct )?(!(?:DI[A-Za-z]+|GenericDINode)\(.*\))\s*$`)
+
+// inlineVariant appends, for every numbered specialised metadata definition of the module, a tuple that holds the
+// same node written in place (its own references to numbered nodes stay references)
+func inlineVariant(src string) string {
+	defs := reSpecDef.FindAllStringSubmatch(src, -1)
+	if len(defs) == 0 {
+		return ""
+	}
+	max := 0
+	for _, m := range regexp.MustCompile(`(?m)^!([0-9]+) = `).FindAllStringSubmatch(src, -1) {
+		var n int
+		fmt.Sscan(m[1], &n)
+		if n > max {
+			max = n
+		}
+	}
+	var sb strings.Builder
+	sb.WriteString(src)
+	if !strings.HasSuffix(src, "\n") {
+		sb.WriteString("\n")
+	}
+	for i, d := range defs {
+		fmt.Fprintf(&sb, "!%d = !{%s}\n", max+1+i, d[2])
+	}
+	return sb.String()
 }
